@@ -239,6 +239,9 @@ func (e *env) runNbClient() {
 	}
 	timeout := time.Duration(c.NbTimeout) * time.Second
 	tlsc := &lltls.Config{InsecureSkipVerify: true}
+	if !c.NbTLS13 {
+		tlsc.MaxVersion = lltls.VersionTLS12
+	}
 	n := &nbRun{e: e, allDone: make(chan struct{}, 1)}
 	n.lastDo.Store(time.Now())
 	stop := make(chan struct{})
@@ -415,12 +418,24 @@ func (e *env) runNbClient() {
 		e.r.Count("client_closed_with_requests_in_flight", 1)
 	}
 	if decidable {
-		cli.Close()
-		n.mu.Lock()
-		for _, cc := range n.ccs {
-			cc.Close()
+		closed := make(chan struct{})
+		go func() {
+			cli.Close()
+			n.mu.Lock()
+			for _, cc := range n.ccs {
+				cc.Close()
+			}
+			n.mu.Unlock()
+			close(closed)
+		}()
+		select {
+		case <-closed:
+		case <-time.After(20 * time.Second):
+			// Close waits for the connection mutex, which Do holds while it dials
+			// and shakes hands
+			decidable = false
+			e.r.Inconclusive(fmt.Sprintf("case %d: Client.Close / ClientConn.Close did not return (a Do is stuck in its dial/handshake holding the connection mutex)", c.Index))
 		}
-		n.mu.Unlock()
 	}
 	if atomic.LoadInt64(&n.pending) > 0 {
 		for {
